@@ -119,6 +119,7 @@ def bnd_val(b):
 def odd_part(q: Fraction):
     """|q| = o * 2^t with o odd (q dyadic, non-zero)"""
     q = abs(q)
+    assert q != 0, 'odd_part(0)'
     n, dd = q.numerator, q.denominator
     assert dd & (dd - 1) == 0, 'non-dyadic'
     t = -(dd.bit_length() - 1)
@@ -346,9 +347,9 @@ def shape_of_format(fmt: Format):
 def ctx_formats(rep):
     """[(ctx descriptor, ctx, Format, abstract descriptor)] for every context the real code can abstract"""
     out = []
-    for cd in CTX_DESCS:
+    for cd in CTX_DESCS + [dict(fam='exp', nbits=4, eoff=0), dict(fam='exp', nbits=3, eoff=-2)]:
         try:
-            ctx = ctx_obj(cd)
+            ctx = fp.ExpContext(cd['nbits'], cd['eoff']) if cd['fam'] == 'exp' else ctx_obj(cd)
             fmt = ctx.format()
             d = af_desc(AbstractFormat.from_format(fmt))
         except Exception as e:   # noqa
@@ -390,6 +391,14 @@ FINDING_OF_SHAPE = {
     'negzero-neg': 'F29',
     'negzero-mul': 'F29',
     'prog-negative-zero-from-exact-neg-or-mul': 'F29',
+    # _sum_bound: sum of a one-element list is given the scope's format, the run-time returns the element unrounded
+    'prog-sum-of-one-element-is-not-rounded': 'C14-sum1',
+    # _materialize_in_scope: a zero-bounded format with has_nan / has_inf is reported as the set {0[, -0]}
+    'prog-zero-only-set-drops-specials': 'C14-zeroonly',
+    # _free_var_format: a captured Python float -0.0 becomes Fraction(0)
+    'prog-captured-python-negative-zero': 'C14-capnegzero',
+    # round_is_identity: every abstract format contains +0, ExpFormat does not (ExpContext rounds 0 to NaN)
+    'round-identity-target-has-no-zero': 'C14-expzero',
     # exact_select: `min(x, y)` takes y's pos_bound although y may be +inf (then the result is x); same for max / -inf
     'prog-select-bound-from-operand-that-may-be-inf': 'C14-select',
 }
@@ -496,6 +505,46 @@ def stage_membership_tie(rep, R, tier, wf_formats):
     rep.cov['membership_tie_lines'] = len(lines)
 
 
+def stage_api_and_to_format(rep, R, tier, wf_formats, ctxfmts):
+    """the rest of the class's surface: `format()` is a superset of the abstract format (every enumerated member is a
+    value of the concrete format, read from its parameters), `>=` mirrors `<=`, equal formats hash equally, `str`
+    works, and the argument guards raise what they say"""
+    import c14prog
+    n = 0
+    for d in wf_formats:
+        a = af_obj(d)
+        try:
+            F = a.format()
+        except Exception as e:   # noqa
+            rep.count('to_format:raises:' + err_name(e)); continue
+        rep.count('to_format:' + type(F).__name__)
+        for x in enum_members(d):
+            n += 1
+            ok = c14prog.bound_member(sys.modules[__name__], F, v_float(x), rep)
+            if ok is False:
+                viol(rep, 'to_format-misses-a-member', 'AbstractFormat.format() does not represent a member of the abstract format',
+                     {'stage': 'abstract', 'op': 'format', 'a': af_tok(d), 'x': v_str(x), 'format': repr(F), 'shape': 'to_format-misses-a-member'})
+                break
+        b = af_obj(R.choice(wf_formats))
+        if (a >= b) != (b <= a): rep.broke('harness', 'C14.ge', f'{a} >= {b} differs from the mirrored <=')
+        if hash(a) != hash(af_obj(d)) or a != af_obj(d): rep.broke('harness', 'C14.hash', f'equal formats differ: {a}')
+        str(a)
+    a = af_obj(wf_formats[0])
+    for what, fn, exc in (('add', lambda: a + 1, TypeError), ('sub', lambda: a - 1, TypeError), ('mul', lambda: a * 1, TypeError),
+                          ('and', lambda: a & 1, TypeError), ('or', lambda: a | 1, TypeError), ('le', lambda: a <= 1, TypeError),
+                          ('ge', lambda: a >= 1, TypeError), ('prec0', lambda: AbstractFormat(0, 0, RealFloat.from_int(1)), ValueError),
+                          ('from_format', lambda: AbstractFormat.from_format(3), TypeError),
+                          ('wprec', lambda: a.with_prec_offset(-100), ValueError)):
+        try:
+            fn(); got = None
+        except Exception as e:   # noqa
+            got = type(e)
+        n += 1
+        if got is not exc:
+            rep.count(f'api-guard:{what}:{getattr(got, "__name__", got)}')
+    rep.cov['evaluations'] += n
+    rep.cov['to_format_member_checks'] = n
+
 def stage_oracle(rep, R, tier, wf_formats, ctxfmts):
     """(b) Spec oracle on the REAL operators"""
     fs = list(wf_formats)
@@ -600,6 +649,10 @@ def stage_oracle(rep, R, tier, wf_formats, ctxfmts):
                 if r != x:
                     f10 = isinstance(x, Fraction) and f10_path(du, dctx) and not spec_writable(dctx[0], dctx[1], x)
                     shape = 'round-identity-via-le-exp-unbounded' if f10 else 'round-identity-other'
+                    if isinstance(x, tuple) and not x[1]:
+                        try:
+                            if not fmt.representable_in(Float(s=False, exp=0, c=0)): shape = 'round-identity-target-has-no-zero'
+                        except Exception: pass   # noqa
                     viol(rep, shape, 'round_is_identity is True but rounding changes a member',
                                   {'stage': 'abstract', 'op': 'round_is_identity', 'unrounded': af_tok(du), 'ctx': cd, 'x': v_str(x),
                                    'rounded': v_str(r) if not isinstance(r, str) or r in ('nan', 'pinf', 'ninf') else r,
@@ -611,6 +664,18 @@ def stage_oracle(rep, R, tier, wf_formats, ctxfmts):
 
 
 def run(rep, tier, seed):
+    import c14cov
+    c14cov.start(REPO)
+    try:
+        _run(rep, tier, seed)
+    finally:
+        c14cov.report(rep, REPO)
+
+def _timed(rep, name, fn):
+    t = time.time(); fn()
+    rep.cov.setdefault('stage_seconds', {})[name] = round(time.time() - t, 1)
+
+def _run(rep, tier, seed):
     R = Prng(seed, 'C14')
     ctxfmts = ctx_formats(rep)
     fin = finite_grid()
@@ -623,14 +688,17 @@ def run(rep, tier, seed):
             if spec_wf(d): wf.append(d)
     wf = list(dict.fromkeys(wf))
     for d in wf: rep.count(f"fmt:prec={d[0]}:exp={d[1]}")
-    stage_correspondence(rep, R, tier, fin, ctxfmts)
-    stage_membership_tie(rep, R, tier, wf)
-    stage_oracle(rep, R, tier, wf, ctxfmts)
+    _timed(rep, 'stage_correspondence', lambda: stage_correspondence(rep, R, tier, fin, ctxfmts))
+    _timed(rep, 'stage_membership_tie', lambda: stage_membership_tie(rep, R, tier, wf))
+    _timed(rep, 'stage_oracle', lambda: stage_oracle(rep, R, tier, wf, ctxfmts))
+    _timed(rep, 'stage_api_and_to_format', lambda: stage_api_and_to_format(rep, R, tier, wf, ctxfmts))
     try:
         import c14prog
-        c14prog.stage_programs(rep, R, tier, sys.modules[__name__])
+        _timed(rep, 'stage_programs', lambda: c14prog.stage_programs(rep, R, tier, sys.modules[__name__]))
         import c14refine
-        c14refine.stage_refinement(rep, R, tier, sys.modules[__name__])
+        _timed(rep, 'stage_refinement', lambda: c14refine.stage_refinement(rep, R, tier, sys.modules[__name__]))
+        import c14ops
+        _timed(rep, 'stage_ops', lambda: c14ops.stage_ops(rep, R, tier, sys.modules[__name__]))
     except ImportError:
         rep.notes.append('program-level stage (c14prog.py) not present')
     rep.cov['rule'] = (
@@ -641,7 +709,7 @@ def run(rep, tier, seed):
         f'(multiples of 2^{ELO} up to magnitude {MAG}, both zeros, specials) with a Python reading of the docstring; real outputs must contain '
         'exact results; a<=b => inclusion on all enumerated members; round_is_identity => ctx.round changes no member; '
         'Lean executable membership (proved equal to the Spec: member_iff_gamma) cross-checked against the Python reading; '
-        '(c) program stage: see program_rule; (c2) branch refinement stage: see refine_rule; at most 2 replay records per violation shape (all counted in distribution), '
+        '(c) program stage: see program_rule; (c2) branch refinement stage: see refine_rule; (c3) one template per transfer function, arguments at both extremes of asymmetric formats: see ops_rule; (d) format() superset, >=, hash, argument guards; coverage of the analysed code by the check: analysis_code_coverage*; at most 2 replay records per violation shape (all counted in distribution), '
         'for a program run only the first missed value in execution order is reported; '
         'distinct = distinct driver lines + distinct (program, site, value) observations')
     rep.assumptions += [
